@@ -3,6 +3,7 @@ package props
 import (
 	"fmt"
 	"math"
+	"os"
 	"sort"
 
 	"github.com/sahandsafizadeh/qeep/component/optimizers"
@@ -269,6 +270,11 @@ func (h *c08hist) observe(step int, changed map[int]bool) bool {
 				return false
 			}
 			if e := gradClose(got, n.grad); e != nil {
+				if os.Getenv("VERIF_DUMP") != "" {
+					for j, m := range h.nodes {
+						fmt.Fprintf(os.Stderr, "node %d %s%v F=%v dim=%d shape=%v val=%v tracked=%v spent=%v\n", j, m.in.Op, m.in.In, m.in.F, m.in.Dim, m.in.Shape, m.val.Data, m.tracked, m.spent)
+					}
+				}
 				k.Failf("step %d (%s): gradient of tensor %d differs from the accumulated total derivative: %v", step, h.last(), i, e)
 				return false
 			}
@@ -721,7 +727,14 @@ func (h *c08hist) genOp() (ref.Instr, bool) {
 	case 0:
 		return ref.Instr{Op: "scale", In: []int{x}, F: []float64{-1.2, 0.5, 1, 0.8}[r.Intn(4)]}, true
 	case 1: // element-wise functions, among them component calls (activation objects)
-		return ref.Instr{Op: []string{"sin", "tanh", "cos", "sigmoid", "relu"}[r.Intn(5)], In: []int{x}}, true
+		op := []string{"sin", "tanh", "cos", "sigmoid", "relu"}[r.Intn(5)]
+		if op == "sigmoid" && !(maxAbs(v) <= 30) {
+			// Sigmoid is specified for inputs of magnitude up to 700 (C14 / C15); far beyond that its rule meets e^-x = +Inf and 0 * Inf is not a
+			// number - chains of Pow can reach such values, and the gradient VALUES this history monitor compares are only decided inside the
+			// domain of the operations' own properties
+			op = "tanh"
+		}
+		return ref.Instr{Op: op, In: []int{x}}, true
 	case 2, 3:
 		y := same()
 		if rank == 1 && r.Intn(4) == 0 { // a loss component over two existing tensors (either may be tracked, spent, or the same object)
@@ -764,6 +777,12 @@ func (h *c08hist) genOp() (ref.Instr, bool) {
 			return ref.Instr{Op: "transpose", In: []int{x}}, true
 		}
 		if rank >= 1 {
+			switch r.Intn(4) {
+			case 0:
+				return ref.Instr{Op: "slice", In: []int{x}}, true // Slice(nil): the copy idiom
+			case 1:
+				return ref.Instr{Op: "slice", In: []int{x}, Index: []ref.Range{{From: 0, To: 0}}}, true // the whole first dimension, spelled {0,0}
+			}
 			return ref.Instr{Op: "slice", In: []int{x}, Index: []ref.Range{{From: 0, To: 1 + r.Intn(v.Shape[0])}}}, true
 		}
 		return ref.Instr{Op: "pow", In: []int{x}, F: 2}, true
